@@ -10,9 +10,9 @@ LEAVES = [
     ("Lookup", "initial_delay", "_services/info.py", "ServiceInfo._get_initial_delay", ("ret",), [], "num", {"nat": True}),
     ("Lookup", "deadline_of", "_services/info.py", "ServiceInfo.async_request", ("assign", "last", 0),
      [P("now", "now"), P("timeout", "timeout")], "num", {}),
-    ("Lookup", "deadline_passed", "_services/info.py", "ServiceInfo.async_request", ("if", "last <= now", 0),
+    ("Lookup", "deadline_passed", "_services/info.py", "ServiceInfo.async_request", ("if", "last", "now", 0),
      [P("last", "last"), P("now", "now")], "bool", {}),
-    ("Lookup", "query_due", "_services/info.py", "ServiceInfo.async_request", ("if", "next_ <= now", 0),
+    ("Lookup", "query_due", "_services/info.py", "ServiceInfo.async_request", ("if", "next_", "now", 0),
      [P("next_", "next_"), P("now", "now")], "bool", {}),
     # question_type or QU_QUESTION if first_request else QM_QUESTION   (0 = None, enum members are truthy)
     ("Lookup", "this_question_type", "_services/info.py", "ServiceInfo.async_request", ("assign", "this_question_type", 0),
